@@ -14,6 +14,7 @@
 
 from __future__ import annotations
 
+from copy import copy
 from typing import Dict
 from typing import List
 from typing import Optional
@@ -105,6 +106,8 @@ class PerceptionFrameResult:
             **self.pass_fail_result.critical_object_filter_config.filtering_params,
         )
 
+        # NOTE: narrow a shallow copy, the frame given by the caller must keep all objects
+        self.frame_ground_truth = copy(self.frame_ground_truth)
         self.frame_ground_truth.objects = filter_objects(
             self.frame_ground_truth.objects,
             is_gt=True,
